@@ -301,9 +301,7 @@ where
         reader.read_exact(&mut buf[..])?;
         let mut bv = Self::from_bytes(&buf[..], endianness)
             .map_err(|e| std::io::Error::new(std::io::ErrorKind::InvalidData, e))?;
-        if let Some(l) = bv.data.last_mut() {
-            *l &= I::mask(length.wrapping_sub(1) % Self::BIT_UNIT + 1);
-        }
+        bv.mod2n(length);
         bv.length = length;
         Ok(bv)
     }
